@@ -546,6 +546,22 @@ WORLDS = {
                                       ("submit", "n0"), ("hb", "n0"), ("msg", "AppendEntries", "n0", "n1"),
                                       ("msg", "AppendEntriesResponse", "n1", "n0"), ("drop",)],
                    timeouts=2, max_term=3, hbs=1, max_msgs=6),
+    # log repair by reject/retry with prev_log_index >= 1 (mini round 6): n0 led term 1, c0 is everywhere, c1 and c2
+    # are on n0+n1; n1 wins term 2 with n2's vote and repairs n2 through two rejected AppendEntries and one
+    # successful retry (prev_log_index 1); n1's first AppendEntries to n0 (prev 3, will succeed) is still in flight
+    "repaired": dict(prefix=ELECT_N0 + [("submit", "n0"), ("hb", "n0"), ("drain",), ("hb", "n0"), ("drain",),
+                                        ("submit", "n0"), ("submit", "n0"), ("hb", "n0"),
+                                        ("msg", "AppendEntries", "n0", "n1"),
+                                        ("msg", "AppendEntriesResponse", "n1", "n0"), ("drop",),
+                                        ("timeout", "n1"), ("msg", "RequestVote", "n1", "n2"),
+                                        ("msg", "VoteResponse", "n2", "n1"), ("dropmsg", "RequestVote", "n1", "n0"),
+                                        ("msg", "AppendEntries", "n1", "n2"),
+                                        ("msg", "AppendEntriesResponse", "n2", "n1"),
+                                        ("msg", "AppendEntries", "n1", "n2"),
+                                        ("msg", "AppendEntriesResponse", "n2", "n1"),
+                                        ("msg", "AppendEntries", "n1", "n2"),
+                                        ("msg", "AppendEntriesResponse", "n2", "n1")],
+                     timeouts=1, max_term=3, submits=1, hbs=1, max_msgs=5, max_log=4),
     # commit rule (Raft paper figure 8 with three nodes): n0 led term 1 and holds c0 alone, n2 leads term 2 and
     # holds c1 alone, n1 voted for both and holds nothing; n2's first AppendEntries to n0 is still in flight
     "fig8": dict(prefix=[("timeout", "n0"), ("msg", "RequestVote", "n0", "n1"), ("msg", "VoteResponse", "n1", "n0"),
@@ -1098,6 +1114,7 @@ QUICK_WORLDS = [
     ("fig8", "fig8", dict(max_msgs=4), 300_000),
     ("stale-resp5", "stale-resp5", dict(max_msgs=5), 300_000),
     ("behind", "behind", dict(hbs=0, max_msgs=4), 300_000),
+    ("repaired", "repaired", dict(hbs=0, max_msgs=4), 300_000),
     ("late-vote", "late-vote", None, 300_000),
     ("split4", "split4", None, 300_000),
     ("releader5", "releader5", None, 300_000),
@@ -1121,6 +1138,7 @@ THOROUGH_WORLDS = [
     ("change-t1", "change", dict(timeouts=1, max_term=2, hbs=2, max_msgs=4), 600_000),
     ("crash", "crash-repl", dict(hbs=1, max_msgs=4), 600_000),
     ("behind", "behind", dict(hbs=1, max_msgs=4), 600_000),
+    ("repaired", "repaired", None, 600_000),
     ("fig8", "fig8", dict(hbs=0, max_msgs=5), 600_000),
     ("elect-4t3", "elect-t3", dict(max_msgs=4), 600_000),
     ("change-t2", "change", dict(timeouts=2, max_term=3, hbs=0, max_msgs=6), 600_000),
